@@ -1,6 +1,7 @@
 import SafeNet.Driver.Util
 import SafeNet.Model.Parsers
 import SafeNet.Driver.ParsersExt
+import SafeNet.Driver.ParsersR6
 /-! Line-protocol driver for the C17 parser models (`drv_parsers`): one output line per op line of the
 harness binaries `parsers` (hlight), `cliparsers` (hnode), `mgrparsers` (hmgr). -/
 namespace SafeNet.Driver.Parsers
@@ -221,7 +222,7 @@ def stepLine (ws : List String) : String :=
         | .err _ => "err"
         | .panic _ => "panic")
     | _, _, _ => "bad-op"
-  | other => (ParsersExt.stepLine other).getD "bad-op"
+  | other => ((ParsersExt.stepLine other).orElse fun _ => ParsersR6.stepLine other).getD "bad-op"
 
 def step (_ : Unit) (ws : List String) : Unit × String := ((), stepLine ws)
 
@@ -261,6 +262,6 @@ def searchCandidates : List String := Id.run do
       if (leastFaulty [(s, f)]).isPanic then out := out ++ [s!"leastfaulty {s}:{f}"]
       if (loadCache 1 10 (some [[(s, f, false), (s, f, false), (s, f, false)]])).isPanic then
         out := out ++ [s!"loadcache 1 10 gen {s}:{f}:0,{s}:{f}:0,{s}:{f}:0"]
-  return out ++ ParsersExt.searchCandidates
+  return out ++ ParsersExt.searchCandidates ++ ParsersR6.searchCandidates
 
 end SafeNet.Driver.Parsers
